@@ -109,3 +109,20 @@ Definition mrel (d : N -> Z) (p q : N * mnode) : Prop :=
   fst p = fst q /\ m_el (snd p) = m_el (snd q) /\ m_aro (snd p) = m_aro (snd q) /\ m_ch (snd p) = m_ch (snd q) /\
   m_hc (snd p) = m_hc (snd q) + (if is_Hm (snd q) then 0 else d (fst q)).
 
+
+(** _explicit_h, the wiring: two atoms carry a common pair id; the groups are the classes of the closure *)
+Definition hp_of (a : inode) : list N := match i_hp a with Some l => l | None => [] end.
+Definition share_pair (T : its) (a b : N) : Prop :=
+  exists pid A B, In (a, A) (gnodes T) /\ In (b, B) (gnodes T) /\ In pid (hp_of A) /\ In pid (hp_of B).
+Inductive same_group (T : its) : N -> N -> Prop :=
+| sg_refl a : same_group T a a
+| sg_step a b c : share_pair T a b -> same_group T b c -> same_group T a c.
+
+
+(** an atom is grouped when it belongs to one of the components the pairing works on; a group is exact when its
+    donors have exactly as many hydrogens to give as its recipients can take *)
+Definition grouped (T : its) (x : N) : bool := existsb (mem x) (components (pair_to_nodes T)).
+Definition comp_exactb (T : its) (comp : list N) : bool :=
+  Z.eqb (sumF (dl_of T) (filter (fun n => 0 <? dl_of T n) comp)) (sumF (fun n => - dl_of T n) (filter (fun n => dl_of T n <? 0) comp)).
+Definition pairs_exactb (T : its) : bool := forallb (fun c => comp_exactb T (sort_N c)) (components (pair_to_nodes T)).
+
